@@ -241,6 +241,7 @@ func (ds *Dataset) StoreEntities(entities []*Entity) (Error error) {
 		return nil
 	}
 
+	verifhook.Point("store.before-lock")
 	ds.WriteLock.Lock()
 	verifhook.Point("store.locked")
 	writeLockStart := time.Now()
